@@ -167,6 +167,24 @@ FUNCS = [
     ("C08", "dataiter/aggregate.py", "count_unique_apply_numba", [], "agg_count_unique_apply_numba"),
     ("C08", "dataiter/aggregate.py", "quantile_apply_numba", [], "agg_quantile_apply_numba"),
     ("C08", "dataiter/aggregate.py", "is_na_numba", [], "agg_is_na_numba"),
+    ("C20", "dataiter/util.py", "upad", [], "util_upad"),
+    ("C20", "dataiter/util.py", "utruncate", [], "util_utruncate"),
+    ("C20", "dataiter/util.py", "format_floats", [], "util_format_floats"),
+    ("C20", "dataiter/vector.py", "Vector.to_strings", [], "Vector_to_strings"),
+    ("C20", "dataiter/vector.py", "Vector.to_string", [], "Vector_to_string"),
+    ("C20", "dataiter/data_frame.py", "DataFrame.to_string", [], "DataFrame_to_string"),
+    ("C20", "dataiter/list_of_dicts.py", "ListOfDicts.to_string", [], "ListOfDicts_to_string"),
+    ("C12", "dataiter/data_frame.py", "DataFrame.write_csv", [], "DataFrame_write_csv"),
+    ("C12", "dataiter/data_frame.py", "DataFrame.write_json", [], "DataFrame_write_json"),
+    ("C12", "dataiter/data_frame.py", "DataFrame.write_npz", [], "DataFrame_write_npz"),
+    ("C12", "dataiter/data_frame.py", "DataFrame.read_npz", [], "DataFrame_read_npz"),
+    ("C12", "dataiter/data_frame.py", "DataFrame.write_parquet", [], "DataFrame_write_parquet"),
+    ("C12", "dataiter/data_frame.py", "DataFrame.write_pickle", [], "DataFrame_write_pickle"),
+    ("C12", "dataiter/data_frame.py", "DataFrame.read_pickle", [], "DataFrame_read_pickle"),
+    ("C12", "dataiter/list_of_dicts.py", "ListOfDicts.write_csv", [], "ListOfDicts_write_csv"),
+    ("C12", "dataiter/list_of_dicts.py", "ListOfDicts.write_json", [], "ListOfDicts_write_json"),
+    ("C12", "dataiter/list_of_dicts.py", "ListOfDicts.write_pickle", [], "ListOfDicts_write_pickle"),
+    ("C12", "dataiter/list_of_dicts.py", "ListOfDicts.read_pickle", [], "ListOfDicts_read_pickle"),
     ("C11", "dataiter/vector.py", "Vector.sort", [], "Vector_sort"),
     ("C11", "dataiter/vector.py", "Vector.rank", [], "Vector_rank"),
     ("C11", "dataiter/vector.py", "Vector.unique", [], "Vector_unique"),
